@@ -450,9 +450,11 @@ def h_us(fmt, us):
 
 
 def microsecond_values(quick, fmt):
+    from ref import hazards
     if quick:
-        return sorted(set(list(range(0, 2000)) + list(range(0, 1000000, 97 if fmt == 'json' else 331)) + [999999, 129649, 15700]))
-    return list(range(0, 1000000, 1 if fmt == 'json' else 3))
+        return sorted(set(list(range(0, 2000)) + list(range(0, 1000000, 97 if fmt == 'json' else 331)) + [999999, 129649, 15700]
+                          + hazards.microsecond_alphabet(250)))
+    return sorted(set(list(range(0, 1000000, 1 if fmt == 'json' else 3)) + hazards.microsecond_hazards()))
 
 
 def replay_scalar(case, st):
